@@ -877,7 +877,7 @@ def r8_malformed_entries(rep, src):
     return n
 
 
-def _interpret_update(src, index, local_hash, prefix):
+def _interpret_update(src, index, local_hash, prefix, undecodable=()):
     """update_file interpreted (sa.heap) on one index (paragraphs of (field, value) pairs) and one local content, with the streams,
     the downloads, the hash functions and the patch application replaced by a model: contents are named by their hashes, applying
     the patch the history lists for the current content gives the next content of the history, anything else gives garbage.
@@ -915,6 +915,9 @@ def _interpret_update(src, index, local_hash, prefix):
         if not isinstance(url, str) or '.diff/' not in url or not url.endswith('.gz'):
             raise AnalysisError('C19 scenario: patch URL %r' % (url,))
         log.append(('patch', url.split('.diff/')[1][:-3]))
+        if url.split('.diff/')[1][:-3] in undecodable:
+            # the patch leads to (or away from) a version that is not valid UTF-8: reading it as text fails
+            raise H.Raised('UnicodeDecodeError', it.h.version, 0)
         return it.h.new_list(['patch:' + url.split('.diff/')[1][:-3]])
 
     def h_patch_lines(it, args, kw):
@@ -959,15 +962,15 @@ def r10_index_scenarios(rep, src):
             fields = [(prefix + '-Current', current), (prefix + '-History', '\n ' + '\n '.join(hl)), (prefix + '-Patches', '\n ' + '\n '.join(pl))]
             return [[fv for fv in fields if fv[0].split('-')[1] not in drop]]
 
-        def judge(rule, what, idx, local, must_patch):
-            out, log = _interpret_update(src, idx, local, prefix)
+        def judge(rule, what, idx, local, must_patch, undecodable=()):
+            out, log = _interpret_update(src, idx, local, prefix, undecodable)
             applied = [e[1] for e in log if e[0] == 'apply']
             fetched = [e[1] for e in log if e[0] == 'patch']
             repl = [e for e in log if e[0] == 'replace']
             full = [e for e in log if e[0] == 'full']
             starts = [j for j, (hh, _) in enumerate(H_) if hh == local]
             good_chain = any(applied == names[j:] for j in starts) and applied and fetched == applied and repl == [('replace', 'hC')] and not full and out == ('return', 'LINES')
-            good_full = out == ('return', 'FULL') and not repl and not applied
+            good_full = out == ('return', 'FULL') and not repl       # (patches applied to the lines in memory before the fallback change nothing on disk)
             up_to_date = local == 'hC' and out == ('return', 'LINES') and not log[1:]
             if up_to_date or good_chain or (good_full and not must_patch):
                 rep.ok(rule, f.site, what, 'up to date' if up_to_date else 'patches %s' % ' '.join(applied) if good_chain else 'full download')
@@ -980,6 +983,10 @@ def r10_index_scenarios(rep, src):
                     else 'that, or the full download (the index is unusable)'), where=f.where)
         for local in ('h0', 'h1', 'h3', 'hC', 'hX'):
             judge('C19.R7', '[%s] history h0 h1 h0 h3 -> current, local copy at %s' % (prefix, local), index(), local, local in ('h0', 'h1', 'h3'))
+        # a version in the middle of the history that is not valid UTF-8 (the current content is): the patches to and from it cannot be
+        # read as text -- like a local copy or an index that cannot be decoded, that is a reason for the full download, not an error
+        for bad_patch, local in (('P1', 'h1'), ('P2', 'h1'), ('P0', 'h0'), ('P3', 'h3')):
+            judge('C19.R8', '[%s] patch %s cannot be decoded (a version that is not UTF-8), local copy at %s' % (prefix, bad_patch, local), index(), local, False, (bad_patch,))
         # blank lines between the entries are not entries
         judge('C19.R7', '[%s] history with an empty line between the entries, local copy at h1' % prefix,
               [[(prefix + '-Current', 'hC 99'), (prefix + '-History', '\n h0 10 P0\n\n h1 10 P1\n h0 10 P2\n h3 10 P3\n'),
